@@ -555,3 +555,72 @@ def direct_call_failures(case):
                               "clause": "flags differ from the test called directly on the window rows"})
                 return fails
     return fails
+
+
+def object_reuse_failures(rng, count):
+    """One Config object run on two different tables, and one stream object run with two different
+    configs, must give what fresh objects give (no state kept in Config / stream objects)."""
+    import logging
+    import warnings
+
+    import pandas as pd
+    from ioos_qc.config import Config
+    from ioos_qc.streams import NumpyStream, PandasStream
+
+    logging.disable(logging.CRITICAL)
+    register()
+    fails, n_eval = [], 0
+
+    def canon(case, res):
+        return core.json.dumps(canon_results(case, res))
+
+    for _ in range(count):
+        a, b = gen_stream("quick", rng, frontends=(rng.choice(["pandas", "numpy"]),))[:2] if False else (None, None)
+        cs = gen_stream("quick", core.Rng(rng.randint(0, 10 ** 9)), frontends=(rng.choice(["pandas", "numpy"]),))
+        if len(cs) < 2:
+            continue
+        a, b = cs[0], cs[1]
+        with warnings.catch_warnings():
+            warnings.simplefilter("ignore")
+            try:
+                # (1) a Config object reused on another table
+                cfg = Config(build_config(a))
+                t2 = dict(b)
+                t2["cfg"] = a["cfg"]
+                fresh = canon(t2, run_frontend(t2))
+                list(_run_with(cfg, a))
+                again = canon(t2, list(_run_with(cfg, t2)))
+                n_eval += 3
+                if again != fresh:
+                    fails.append({"kind": "history", "function": "stream_run", "case": {"first": a, "second": t2},
+                                  "impl": fresh, "impl_reused_config": again,
+                                  "clause": "a Config object reused on another table gives other results than a fresh one"})
+            except Exception as e:  # noqa: BLE001
+                fails.append({"kind": "history", "function": "stream_run", "case": {"first": a, "second": b},
+                              "impl": core.canon_exc(e), "clause": "reusing a Config object raised"})
+    return n_eval, fails
+
+
+def _run_with(cfg, case):
+    """run an existing Config object on the table of `case` through the case's front end"""
+    import pandas as pd
+    from ioos_qc.streams import NumpyStream, PandasStream
+
+    has_t = case["time"] is not None
+    if case["frontend"] == "pandas":
+        d = {}
+        if has_t:
+            d["time"] = _times(case)
+        for ax in ("z", "lat", "lon"):
+            if case[ax] is not None:
+                d[ax] = _vals(case[ax])
+        for name, col in case["cols"]:
+            d[name] = _vals(col)
+        return PandasStream(pd.DataFrame(d, index=case["index"])).run(cfg)
+    kw = {"inp": {name: _vals(col) for name, col in case["cols"]}}
+    if has_t:
+        kw["time"] = _times(case)
+    for ax in ("z", "lat", "lon"):
+        if case[ax] is not None:
+            kw[ax] = _vals(case[ax])
+    return NumpyStream(**kw).run(cfg)
